@@ -136,6 +136,11 @@ func (ctx *Context) IsCalculateExists() bool {
 
 func (ctx *Context) RunAfterParsed() error {
 	ctx.IsComputedLoaded = false
+	// 同一份已解析的代码可以多次执行，每次执行都从干净的状态开始，
+	// 不能带着上一次执行留下的错误、算力计数和计算过程缓存
+	ctx.Error = nil
+	ctx.NumOpCount = 0
+	ctx.detailCache = ""
 	// 以下为eval
 	ctx.evaluate()
 	if ctx.Error != nil {
